@@ -60,3 +60,49 @@ def all_subclasses(cls) -> list[type]:
                 out.append(s)
                 stack.append(s)
     return out
+
+
+def command_table() -> dict[int, type]:
+    """code -> command base class, derived from the class tree (not from all_commands):
+    the direct subclasses of Message / DefinedMessage / UndefinedMessage carrying a code."""
+    out: dict[int, type] = {}
+    dup = []
+    for root in (Message, DefinedMessage, UndefinedMessage):
+        for c in root.__subclasses__():
+            if c in (DefinedMessage, UndefinedMessage):
+                continue
+            code = c.__dict__.get("code", getattr(c, "code", 0))
+            if code in out and out[code] is not c:
+                dup.append((code, out[code].__name__, c.__name__))
+            out[code] = c
+    out.pop(0, None)
+    command_table.duplicates = dup
+    return out
+
+
+def expected_decode_class(code: int, is_request: bool, plain: bool = False, table=None) -> type:
+    table = table if table is not None else command_table()
+    base = table.get(code)
+    if base is None:
+        return UndefinedMessage
+    if plain:
+        return base
+    want = base.__name__ + ("Request" if is_request else "Answer")
+    for s in base.__subclasses__():
+        if s.__name__ == want:
+            return s
+    return base
+
+
+def paired_answer_class(cls: type):
+    """Answer class paired with a request class by the library's naming convention, else None."""
+    name = cls.__name__
+    if not name.endswith("Request"):
+        return None
+    stem = name[:-7]
+    for b in cls.__mro__:
+        if b.__name__ == stem:
+            for s in b.__subclasses__():
+                if s.__name__ == stem + "Answer":
+                    return s
+    return None
